@@ -340,6 +340,9 @@ func genUE(r *kernel.Rand, o GenOpts, ord int) scn.UEParams {
 		p.CauseVal = int(rs.Pick(0x29, 0x29, 0x59, 0x7B, 0x1A, 0x24))
 	}
 	p.QoSRuleLen = r.Pick(0, 1, 6, 9, 32, 127, 128, 255, 256, r.Range(0, 1000))
+	if v := os.Getenv("VSIM_FORCE_QOS"); v != "" { // debugging aid: one fixed QoS rule length
+		fmt.Sscan(v, &p.QoSRuleLen)
+	}
 	if o.OptIEs {
 		p.AccLens = []int{r.Range(0, 120), r.Range(0, 120), r.Range(0, 120), r.Range(0, 120), r.Range(0, 60), r.Range(0, 40)}
 	}
